@@ -137,7 +137,7 @@ func confirmAlloc(call func([]byte, string) h2run) func([]byte, string) h2run {
 	return func(data []byte, tail string) h2run {
 		cp := func() []byte { return append(make([]byte, 0, cap(data)), data[:cap(data)]...)[:len(data)] }
 		r := call(cp(), tail)
-		for i := 0; i < 3 && r.Alloc > allocSuspicious && r.Out != "loop"; i++ {
+		for i := 0; i < 3 && r.Alloc > allocSuspicious && r.Alloc < allocCertain && r.Out != "loop"; i++ {
 			if r2 := call(cp(), tail); r2.Alloc < r.Alloc {
 				r.Alloc = r2.Alloc
 			}
